@@ -6,6 +6,7 @@ import Yae.Model.Ty
 import Yae.Model.Unify
 import Yae.Driver.Wire
 import Yae.Driver.Lex
+import Yae.Driver.VmWire
 namespace Yae.Driver
 open Yae SExp
 
@@ -27,6 +28,9 @@ def uerr : UErr → SExp
 def handle (req : SExp) : SExp :=
   match req with
   | .list (.atom "lex" :: _) => (handleLex req).getD (.atom "bad-request")
+  | .list (.atom "vmcode" :: _) => (handleVm req).getD (.atom "bad-request")
+  | .list (.atom "vmrun" :: _) => (handleVm req).getD (.atom "bad-request")
+  | .list (.atom "verify" :: _) => (handleVm req).getD (.atom "bad-request")
   | .list [.atom "tyeq", a, b] =>
     match Ty.ofSExp a, Ty.ofSExp b with
     | some a, some b => .list [.atom "ok", encBool (tyEq a b)]
